@@ -43,9 +43,14 @@ def showOut {α : Type} (f : α → String) : Except ReadFault α → String
   | .error (.other (.panic _)) => "PANIC"
   | .error e => "ERR:" ++ e.tag
 
-/-- `Decoder.Decode(bits)` of the Data Matrix reader on the matrix read off (tables regenerated from /repo) -/
-def dmDecode (T : DMHighLevel.Tables) (b : Bits) : Res (List Nat) :=
-  DMDec.decodeMatrix T ⟨b.w.toNat, b.h.toNat, b.rows.flatten.toArray⟩
+/-- `Decoder.Decode(bits)` of the Data Matrix reader on the matrix read off (tables regenerated from /repo): the text
+    and the symbology modifier (`]d<m>` in the Result's metadata) -/
+def dmDecode (T : DMHighLevel.Tables) (b : Bits) : Res (List Nat × Nat) :=
+  match DMDec.decodeMatrixBytes ⟨b.w.toNat, b.h.toNat, b.rows.flatten.toArray⟩ with
+  | .ok bytes => DMHighLevel.decodeFull T bytes
+  | .error e => .error e
+
+def showDM (r : List Nat × Nat) : String := s!"{showHex r.1}|m={r.2}"
 
 /-- `Decoder.Decode(bits, hints)` of the QR reader on the (square) matrix read off -/
 def qrDecode (h : ECI.Hint) (b : Bits) : Res QRDec.Decoded :=
@@ -61,7 +66,7 @@ def dmLayers (black : Res Img) : String :=
     let bits := match black with
       | .ok bm => some (DM.extractPureBits bm.rdGo bm)
       | .error _ => none
-    s!"black={showBlack black} bits={showBits? bits} out={showOut showHex (dmRead black (dmDecode T))}"
+    s!"black={showBlack black} bits={showBits? bits} out={showOut showDM (dmRead black (dmDecode T))}"
 
 def qrLayers (h : ECI.Hint) (black : Res Img) : String :=
   let bits := match black with
